@@ -372,3 +372,189 @@ def may_write_through(u, fname, pidx, _seen=None):
             continue
         return True
     return False
+
+
+# --------------------------------------------------------------------------------
+# bundled headers: object layout of the types they define (LP64 / psABI 3.1.2)
+# --------------------------------------------------------------------------------
+class HeaderTypes:
+    """The typedefs / records / enums a bundled header declares (read through clang's AST, never from text) and
+    their object layout under the psABI: .layout(typedef name) -> {'size','align','cls','unsigned','fields'|'elem','n'}.
+    cls: 'int' 'float' 'bool' 'void' 'ptr' 'enum' 'struct' 'union' 'array'. Anything the oracle has no rule for
+    (bit-fields, attributes, vector / 128-bit types, invalid declarations) raises Uninterpretable."""
+
+    def __init__(self, path, scalar, tolerate_errors=False):
+        import json, os, subprocess
+        self.scalar = scalar             # spelled arithmetic type -> (class, size, align, unsigned) | None
+        p = subprocess.run(['clang-14', '-x', 'c', '-std=c11', '-w', '-nostdinc', '-fsyntax-only', '-Xclang', '-ast-dump=json', path],
+                           capture_output=True, text=True)
+        if p.returncode != 0 and not tolerate_errors:
+            raise AnalysisBroken('clang failed on %s: %s' % (path, p.stderr[-300:]))
+        try:
+            top = json.loads(p.stdout)
+        except ValueError:
+            raise AnalysisBroken('clang produced no AST for %s: %s' % (path, p.stderr[-300:]))
+        self.typedefs, self.records, self.tags, self.enums, self.lines = {}, {}, {}, set(), {}
+        real = os.path.realpath(path)
+        cur, line = None, 0
+        for d in top.get('inner', []):
+            loc = d.get('loc', {})
+            f = loc.get('file') or (loc.get('expansionLoc') or {}).get('file')
+            if f:
+                cur = f
+            if loc.get('line'):
+                line = loc['line']
+            k = d.get('kind')
+            if k == 'RecordDecl':
+                self.records[d.get('id')] = d
+                if d.get('name') and d.get('completeDefinition'):
+                    self.tags[(d.get('tagUsed', 'struct'), d['name'])] = d
+            elif k == 'EnumDecl':
+                if d.get('name'):
+                    self.enums.add(d['name'])
+            elif k == 'TypedefDecl' and not d.get('isImplicit'):
+                self.typedefs[d.get('name')] = d
+                if cur and os.path.realpath(cur) == real:
+                    self.lines[d.get('name')] = line
+        self._memo = {}
+
+    def own(self):
+        """names of the typedefs written in the header itself, in order"""
+        return list(self.lines)
+
+    # -- layout ------------------------------------------------------------------
+    def layout(self, name):
+        if name in self._memo:
+            if self._memo[name] is None:
+                raise Uninterpretable('typedef %s is defined in terms of itself' % name)
+            return self._memo[name]
+        d = self.typedefs.get(name)
+        if d is None:
+            raise Uninterpretable('no typedef %s' % name)
+        if d.get('isInvalid'):
+            raise Uninterpretable('clang rejects the declaration of %s' % name)
+        self._memo[name] = None
+        try:
+            own = None
+            for n in self._walk(d):
+                o = n.get('ownedTagDecl')
+                if o and o.get('id') in self.records and n is not d:
+                    own = self.records[o['id']]
+                    break
+            t = d.get('type', {})
+            inner = [c for c in d.get('inner', []) if c.get('kind', '').endswith('Type')]
+            if own is not None and inner and inner[0].get('kind') == 'ElaboratedType':
+                r = self._record(own)        # typedef struct {...} T;
+            else:
+                r = self._spelled(t.get('qualType'), t.get('desugaredQualType'), exclude=name)
+        except Exception:
+            del self._memo[name]
+            raise
+        self._memo[name] = r
+        return r
+
+    def _walk(self, d):
+        yield d
+        for c in d.get('inner', []) or []:
+            for x in self._walk(c):
+                yield x
+
+    def _record(self, d):
+        if d.get('isInvalid') or not d.get('completeDefinition'):
+            raise Uninterpretable('record is incomplete or rejected by clang')
+        union = d.get('tagUsed') == 'union'
+        off = size = 0
+        align = 1
+        fields = []
+        for c in d.get('inner', []) or []:
+            k = c.get('kind', '')
+            if k.endswith('Attr'):
+                raise Uninterpretable('record carries %s' % k)
+            if k in ('RecordDecl', 'EnumDecl'):
+                continue
+            if k != 'FieldDecl':
+                raise Uninterpretable('record contains a %s' % k)
+            if c.get('isBitfield') or c.get('isInvalid') or any((x.get('kind') or '').endswith('Attr') for x in c.get('inner', []) or []):
+                raise Uninterpretable('field %s is a bit-field, carries an attribute or is rejected by clang' % c.get('name'))
+            t = c.get('type', {})
+            l = self._spelled(t.get('qualType'), t.get('desugaredQualType'))
+            if l['size'] is None:
+                raise Uninterpretable('field %s has an incomplete type' % c.get('name'))
+            if union:
+                fields.append((c.get('name'), 0, l))
+                size = max(size, l['size'])
+            else:
+                off = (off + l['align'] - 1) // l['align'] * l['align']
+                fields.append((c.get('name'), off, l))
+                off += l['size']
+                size = off
+            align = max(align, l['align'])
+        size = (size + align - 1) // align * align
+        return {'size': size, 'align': align, 'cls': 'union' if union else 'struct', 'unsigned': None, 'fields': fields}
+
+    _QUALS = ('const', 'volatile', 'restrict', '__restrict', '_Atomic')
+
+    def _spelled(self, t, desugared=None, exclude=None):
+        import re
+        t = ' '.join((t or '').split())
+        if not t:
+            raise Uninterpretable('declaration without a type')
+        m = re.match(r'^_Atomic\((.*)\)$', t)
+        if m:
+            return self._spelled(m.group(1), None, exclude)
+        if t.endswith(']'):
+            i = t.index('[')
+            if '(' in t[:i]:
+                raise Uninterpretable('declarator `%s`' % t)
+            dims = re.findall(r'\[([^\]]*)\]', t[i:])
+            e = self._spelled(t[:i], None, exclude)
+            n = 1
+            for x in dims:
+                if x.strip() == '':
+                    n = 0
+                elif x.strip().isdigit():
+                    n *= int(x)
+                else:
+                    raise Uninterpretable('array bound `%s`' % x)
+            if e['size'] is None:
+                raise Uninterpretable('array of an incomplete type')
+            return {'size': e['size'] * n, 'align': e['align'], 'cls': 'array', 'unsigned': None, 'elem': e, 'n': n}
+        if '(*' in t or t.endswith('*') or any(t.endswith('* ' + q) or t.endswith('*' + q) for q in self._QUALS):
+            return {'size': 8, 'align': 8, 'cls': 'ptr', 'unsigned': 1}
+        if '(' in t:
+            raise Uninterpretable('type `%s`' % t)
+        words = [w for w in t.split() if w not in self._QUALS]
+        t = ' '.join(words)
+        if t in self.typedefs and t != exclude:
+            return self.layout(t)
+        if words and words[0] in ('struct', 'union') and len(words) == 2:
+            d = self.tags.get((words[0], words[1]))
+            if d is None:
+                raise Uninterpretable('`%s` is not defined in the header' % t)
+            return self._record(d)
+        if words and words[0] == 'enum':
+            return {'size': 4, 'align': 4, 'cls': 'enum', 'unsigned': None}
+        a = self.scalar(t)
+        if a is not None:
+            return {'size': a[1], 'align': a[2], 'cls': a[0], 'unsigned': a[3]}
+        if desugared and ' '.join(desugared.split()) != t:
+            return self._spelled(desugared, None, exclude)
+        raise Uninterpretable('type `%s`' % t)
+
+
+def leaves(l, base=0, cap=64):
+    """scalar leaves of a layout as [(byte offset, size, cls)], arrays expanded (at most `cap` leaves)"""
+    out = []
+    if l['cls'] in ('struct', 'union'):
+        for _n, off, f in l['fields']:
+            out += leaves(f, base + off, cap)
+    elif l['cls'] == 'array':
+        for i in range(l['n']):
+            out += leaves(l['elem'], base + i * l['elem']['size'], cap)
+            if len(out) > cap:
+                raise Uninterpretable('aggregate with more than %d scalar members' % cap)
+    else:
+        out.append((base, l['size'], l['cls']))
+    if len(out) > cap:
+        raise Uninterpretable('aggregate with more than %d scalar members' % cap)
+    return out
